@@ -70,6 +70,8 @@ structure St where
   unsynced : List String := []
   /-- key tokens whose revocation the parent acknowledged but did not carry out -/
   ignoredRevokes : List String := []
+  /-- … those among them where a class-name mapping points at a class the parent does not have -/
+  ignoredMissing : List String := []
   /-- do not report the recorded finding `ServerMatchesObjects/reissue-without-sync` -/
   tolerant : Bool := false
   /-- evaluate only the oracle predicates of this property ("" = all) -/
